@@ -156,6 +156,7 @@ class Facts:
         self.fns = {}      # path -> fn record (optimized MIR; for coroutine bodies see .built)
         self.built = {}    # path -> fn record (mir_built of coroutine bodies, pre state transform)
         self.ctfe = {}     # path -> const bodies
+        self.promoted = {}  # (fn path, index) -> promoted constant body
         self.adts = {}     # path -> adt record
         self.impls = []    # impl records
         self.crates = {}
@@ -175,6 +176,8 @@ class Facts:
                             self.fns[o["path"]] = o
                         elif st == "built":
                             self.built[o["path"]] = o
+                        elif st == "promoted":
+                            self.promoted[(o["path"], o["promoted_index"])] = o
                         else:
                             self.ctfe[o["path"]] = o
                     elif k == "adt":
